@@ -21,15 +21,22 @@ def run(tier, seed, vh, only_paths=None, mode=None):
         if rc != 0 or "No error has been found" not in out:
             raise Inconclusive("Leg A: RosmarHLC did not check cleanly: %s" % tlc_errors(out)[:3])
         g, d = tlc_stats(out)
-        rc2, out2 = run_tlc("RosmarHLC.tla", os.path.join(SPEC, "MC_HLC_witness.cfg"), os.path.join(run, "meta_mc2"), workers=16, timeout=600)
-        if "AboveBeforeRestart is violated" not in out2:
-            raise Inconclusive("vacuity control: SeedOnOpen=FALSE no longer violates AboveBeforeRestart")
-        rc2b, out2b = run_tlc("RosmarHLC.tla", os.path.join(SPEC, "MC_HLC_witness2.cfg"), os.path.join(run, "meta_mc3"), workers=16, timeout=600)
-        if "AboveBeforeRestart is violated" not in out2b:
-            raise Inconclusive("vacuity control: MetaKeepsMark=FALSE no longer violates AboveBeforeRestart")
-        rc2c, out2c = run_tlc("RosmarHLC.tla", os.path.join(SPEC, "MC_HLC_witness3.cfg"), os.path.join(run, "meta_mc4"), workers=16, timeout=600)
-        if "AboveBeforeRestart is violated" not in out2c:
-            raise Inconclusive("vacuity control: SeedFromBucketMark=FALSE no longer violates AboveBeforeRestart")
+        # witness configurations (each switch off in turn) must break AboveBeforeRestart; the behaviours that do are
+        # directed scripts for the real code (a change that re-introduces the fault is driven straight into it)
+        witness_scripts = []
+        for cfgname, what in (("MC_HLC_witness.cfg", "SeedOnOpen=FALSE"), ("MC_HLC_witness2.cfg", "MetaKeepsMark=FALSE"),
+                              ("MC_HLC_witness3.cfg", "SeedFromBucketMark=FALSE")):
+            rcw, outw = run_tlc("RosmarHLC.tla", os.path.join(SPEC, cfgname), os.path.join(run, "meta_" + cfgname), workers=8, timeout=900,
+                                extra=["-continue"])
+            ws = []
+            for line in outw.splitlines():
+                if line.startswith('"WITNESS ') and len(ws) < 400:
+                    ws.append(json.loads(line)[len("WITNESS "):])
+            if not ws:
+                raise Inconclusive("vacuity control: %s no longer violates AboveBeforeRestart" % what)
+            rndw = __import__("random").Random(seed)
+            rndw.shuffle(ws)
+            witness_scripts += [json.loads(x) for x in ws[: (12 if tier == "quick" else 60)]]
         # unbounded integers: Apalache discharges that HLCInductive!IndInv is an inductive invariant
         apa = {}
         for nm, args in (("base", ["--init=Init", "--inv=IndInv", "--length=0"]), ("step", ["--init=IndInit", "--inv=IndInv", "--length=1"])):
@@ -56,6 +63,7 @@ def run(tier, seed, vh, only_paths=None, mode=None):
                             scripts.append(json.loads(s))
         if not scripts:
             raise Inconclusive("TLC generated no HLC scripts")
+        scripts += witness_scripts
     else:
         scripts = only_paths
         res["mc"] = {"states": 0, "transitions": 0}
